@@ -1,7 +1,7 @@
 /-
 Effect equations of the acknowledgement handlers: what happens to the tables, the counter, the
-collision slot and what is returned, by cases on the slot / bit addressed. Proved once, used by
-every coupling invariant.
+send stamps, the collision slot and what is returned, by cases on the slot / bit addressed.
+Proved once, used by every coupling invariant.
 -/
 import Proofs.Lemmas.ClientGhost0
 namespace Client
@@ -13,90 +13,91 @@ structure Core where
   rel : List Bool
   inf : Nat
   col : Option Pub
-  lastPuback : Nat
+  ord : List Nat
+  cnt : Nat
   lastPkid : Nat
   deriving DecidableEq
 
-def State.core (s : State) : Core := ⟨s.outgoingPub, s.outgoingRel, s.inflight, s.collision, s.lastPuback, s.lastPkid⟩
+def State.core (s : State) : Core :=
+  ⟨s.outgoingPub, s.outgoingRel, s.inflight, s.collision, s.outgoingOrder, s.outgoingCount, s.lastPkid⟩
 
 @[simp] theorem core_pushEv (s : State) (e : Event) : (s.pushEv e).core = s.core := rfl
 @[simp] theorem core_pushOut (s : State) (o : Outgoing) : (s.pushOut o).core = s.core := rfl
 @[simp] theorem core_drain (s : State) : (drainEvents s).core = s.core := rfl
 
-inductive PubackEff (s : State) (i r : Nat) : State × Outcome → Prop
-  /-- id beyond the table -/
-  | oob (s' : State) (h : s.outgoingPub[i]? = none) (hc : s'.core = s.core) :
-      PubackEff s i r (s', .err (.unsolicited i))
-  /-- empty slot (v4 has already moved `last_puback`) -/
-  | empty (s' : State) (h : s.outgoingPub[i]? = some none)
-      (hc : s'.core = { s.core with lastPuback := if s.ver = Version.v4 then i else s.lastPuback }) :
-      PubackEff s i r (s', .err (.unsolicited i))
-  /-- slot freed, nothing parked on this id (or v5 failure reason) -/
-  | freed (s' : State) (x : Pub) (h : s.outgoingPub[i]? = some (some x))
-      (hn : (s.ver = Version.v5 ∧ ackOk r = false) ∨ ∀ c, s.collision = some c → c.pkid ≠ i)
-      (hc : s'.core = { s.core with pub := s.outgoingPub.set i none, inf := s.inflight - 1, lastPuback := if s.ver = Version.v4 then i else s.lastPuback }) :
-      PubackEff s i r (s', .ok none)
-  /-- slot freed and the parked publish takes it -/
-  | released (s' : State) (x c : Pub) (h : s.outgoingPub[i]? = some (some x))
-      (hv : ¬ (s.ver = Version.v5 ∧ ackOk r = false)) (hcol : s.collision = some c) (hci : c.pkid = i)
-      (hc : s'.core = { s.core with pub := (s.outgoingPub.set i none).set i (some c), inf := s.inflight - 1 + 1, col := none, lastPuback := if s.ver = Version.v4 then i else s.lastPuback }) :
-      PubackEff s i r (s', .ok (some (.publish c)))
+/-- the publish is stored in the slot of its id, stamped and counted -/
+def Core.store (c : Core) (p : Pub) : Core :=
+  { c with pub := c.pub.set p.pkid (some p), ord := c.ord.set p.pkid c.cnt, cnt := c.cnt + 1, inf := c.inf + 1 }
 
-theorem handlePuback_eff {s : State} (hs : SInv s) (i r : Nat) : PubackEff s i r (handlePuback s i r) := by
+theorem storePub_core (s : State) (p : Pub) : (storePub s p).core = s.core.store p := rfl
+
+theorem core_eqs {s s' : State} (h : s'.core = s.core) :
+    s'.outgoingPub = s.outgoingPub ∧ s'.outgoingRel = s.outgoingRel ∧ s'.inflight = s.inflight ∧
+    s'.collision = s.collision ∧ s'.outgoingOrder = s.outgoingOrder ∧ s'.outgoingCount = s.outgoingCount :=
+  ⟨congrArg Core.pub h, congrArg Core.rel h, congrArg Core.inf h, congrArg Core.col h, congrArg Core.ord h,
+    congrArg Core.cnt h⟩
+
+theorem nextPkidSt_core (s : State) : (nextPkidSt s).core = { s.core with lastPkid := (nextPkidSt s).lastPkid } := by
+  unfold nextPkidSt; split <;> rfl
+
+theorem ping_core (s : State) : (handleOutgoing s .pingreq).1.core = s.core := by
+  obtain ⟨f1, f2, f3, f4, f5, f6, f7, f8, f9, f10, f11, f12, f13⟩ := ping_frame s
+  simp [State.core, f1, f2, f8, f9, f11, f12, f13]
+
+/-- slot `i` has just been freed (by PUBACK, a refused PUBREC, or — with the release bit — PUBCOMP):
+    `c0` is the core after freeing -/
+inductive ReleaseEff (s : State) (i : Nat) (c0 : Core) : State × Outcome → Prop
+  /-- nothing parked on this id -/
+  | plain (s' : State) (hn : ∀ c, s.collision = some c → c.pkid ≠ i) (hc : s'.core = c0) :
+      ReleaseEff s i c0 (s', .ok none)
+  /-- the parked publish takes the slot and goes to the wire -/
+  | released (s' : State) (c : Pub) (hcol : s.collision = some c) (hci : c.pkid = i)
+      (hc : s'.core = ({ c0 with col := none }).store c) :
+      ReleaseEff s i c0 (s', .ok (some (.publish c)))
+
+theorem release_eff (s0 s : State) (i : Nat) (hcol : s.collision = s0.collision) :
+    ReleaseEff s0 i s.core (release s i) := by
+  unfold release
+  cases hc : s.collision with
+  | none =>
+    exact .plain _ (by intro c hc'; rw [← hcol, hc] at hc'; cases hc') rfl
+  | some c =>
+    simp only
+    by_cases hci : c.pkid = i
+    · rw [if_pos hci]
+      refine .released _ c (by rw [← hcol, hc]) hci ?_
+      rw [core_pushOut, storePub_core]
+      simp [State.core, hc]
+    · rw [if_neg hci]
+      exact .plain _ (by intro c' hc'; rw [← hcol, hc] at hc'; cases hc'; exact hci) rfl
+
+inductive PubackEff (s : State) (i : Nat) : State × Outcome → Prop
+  /-- no publish stored under this id -/
+  | unsol (s' : State) (h : s.outgoingPub[i]? = none ∨ s.outgoingPub[i]? = some none) (hc : s'.core = s.core) :
+      PubackEff s i (s', .err (.unsolicited i))
+  /-- slot freed, counter down, a publish parked on the id released -/
+  | acked (x : Pub) (res : State × Outcome) (h : s.outgoingPub[i]? = some (some x))
+      (he : ReleaseEff s i { s.core with pub := s.outgoingPub.set i none, inf := s.inflight - 1 } res) :
+      PubackEff s i res
+
+theorem handlePuback_eff {s : State} (hs : SInv s) (i : Nat) : PubackEff s i (handlePuback s i) := by
   unfold handlePuback
   split
-  · rename_i h; exact .oob _ h rfl
-  · rename_i slot hslot
-    have hlp : ∀ s1 : State, s1 = (if s.ver = Version.v4 then { s with lastPuback := i } else s) →
-        s1.core = { s.core with lastPuback := if s.ver = Version.v4 then i else s.lastPuback } ∧ s1.ver = s.ver := by
-      intro s1 h1; subst h1
-      split <;> exact ⟨rfl, rfl⟩
-    generalize hs1 : (if s.ver = Version.v4 then { s with lastPuback := i } else s) = s1
-    obtain ⟨hc1, hv1⟩ := hlp s1 hs1.symm
-    have e1 : s1.outgoingPub = s.outgoingPub := congrArg Core.pub hc1
-    have e2 : s1.inflight = s.inflight := congrArg Core.inf hc1
-    have e3 : s1.collision = s.collision := congrArg Core.col hc1
-    have e4 : s1.outgoingRel = s.outgoingRel := congrArg Core.rel hc1
-    have e5 : s1.lastPuback = (if s.ver = Version.v4 then i else s.lastPuback) := congrArg Core.lastPuback hc1
-    have e6 : s1.lastPkid = s.lastPkid := congrArg Core.lastPkid hc1
-    simp only
-    cases slot with
-    | none => exact .empty _ hslot hc1
-    | some x =>
-      simp only
-      have hpos := occ_pos_of_slot _ _ _ hslot
-      have hcnt := hs.counter
-      rw [if_neg (by rw [e2]; omega)]
-      by_cases hv : (decide (s.ver = Version.v5) && !ackOk r) = true
-      · rw [if_pos hv]
-        refine .freed _ x hslot (Or.inl ?_) ?_
-        · simpa using hv
-        · simp [State.core, e1, e2, e3, e4, e5, e6]
-      · rw [if_neg hv]
-        have hv' : ¬ (s.ver = Version.v5 ∧ ackOk r = false) := by simpa using hv
-        unfold pubackCollision
-        simp only [e3]
-        cases hcol : s.collision with
-        | none =>
-          refine .freed _ x hslot (Or.inr (by simp [hcol])) ?_
-          simp [State.core, e1, e2, e3, e4, e5, e6, hcol]
-        | some c =>
-          simp only
-          by_cases hci : c.pkid = i
-          · rw [if_pos hci]
-            refine .released _ x c hslot hv' hcol hci ?_
-            simp [State.core, State.pushOut, State.pushEv, e1, e2, e4, e5, e6, hci]
-          · rw [if_neg hci]
-            refine .freed _ x hslot (Or.inr (by intro c' hc'; rw [hcol] at hc'; cases hc'; exact hci)) ?_
-            simp [State.core, e1, e2, e3, e4, e5, e6, hcol]
+  · rename_i h; exact .unsol _ (Or.inl h) rfl
+  · rename_i h; exact .unsol _ (Or.inr h) rfl
+  · rename_i x hslot
+    have hpos := occ_pos_of_slot _ _ _ hslot
+    have hcnt := hs.counter
+    rw [if_neg (by omega)]
+    exact .acked x _ hslot (release_eff s { s with outgoingPub := s.outgoingPub.set i none, inflight := s.inflight - 1 } i rfl)
 
 inductive PubrecEff (s : State) (i r : Nat) : State × Outcome → Prop
   | unsol (s' : State) (h : s.outgoingPub[i]? = none ∨ s.outgoingPub[i]? = some none) (hc : s'.core = s.core) :
       PubrecEff s i r (s', .err (.unsolicited i))
-  /-- v5 failure reason: slot freed, counter kept, no release -/
-  | failed (s' : State) (x : Pub) (h : s.outgoingPub[i]? = some (some x)) (hv : s.ver = Version.v5 ∧ ackOk r = false)
-      (hc : s'.core = { s.core with pub := s.outgoingPub.set i none }) :
-      PubrecEff s i r (s', .ok none)
+  /-- v5 failure reason: the flow is over, as with a PUBACK -/
+  | failed (x : Pub) (res : State × Outcome) (h : s.outgoingPub[i]? = some (some x)) (hv : s.ver = Version.v5 ∧ ackOk r = false)
+      (he : ReleaseEff s i { s.core with pub := s.outgoingPub.set i none, inf := s.inflight - 1 } res) :
+      PubrecEff s i r res
   | moved (s' : State) (x : Pub) (h : s.outgoingPub[i]? = some (some x)) (hv : ¬ (s.ver = Version.v5 ∧ ackOk r = false))
       (hi : i < s.outgoingRel.length)
       (hc : s'.core = { s.core with pub := s.outgoingPub.set i none, rel := s.outgoingRel.set i true }) :
@@ -110,68 +111,77 @@ theorem handlePubrec_eff {s : State} (hs : SInv s) (i r : Nat) : PubrecEff s i r
   · rename_i x hslot
     have hlt : i < s.outgoingRel.length := by
       have := hs.lenPub; have := hs.lenRel; have := getElem?_lt_of_some hslot; omega
+    have hpos := occ_pos_of_slot _ _ _ hslot
+    have hcnt := hs.counter
     simp only
     by_cases hv : (decide (s.ver = Version.v5) && !ackOk r) = true
-    · rw [if_pos hv]
-      exact .failed _ x hslot (by simpa using hv) rfl
+    · rw [if_pos hv, if_neg (by omega)]
+      exact .failed x _ hslot (by simpa using hv) (release_eff s { s with outgoingPub := s.outgoingPub.set i none, inflight := s.inflight - 1 } i rfl)
     · rw [if_neg hv, if_pos hlt]
       exact .moved _ x hslot (by simpa using hv) hlt rfl
 
-inductive PubcompEff (s : State) (i r : Nat) : State × Outcome → Prop
-  /-- no parked publish waits for this id: the bit decides -/
+inductive PubcompEff (s : State) (i : Nat) : State × Outcome → Prop
   | unsol (s' : State) (h : relContains s i = false) (hc : s'.core = s.core) :
-      PubcompEff s i r (s', .err (.unsolicited i))
-  | done (s' : State) (h : relContains s i = true) (dec : Bool)
-      (hdec : dec = false → s.ver = Version.v5 ∧ r ≠ 0)
-      (hc : s'.core = { s.core with rel := s.outgoingRel.set i false, inf := if dec then s.inflight - 1 else s.inflight }) :
-      PubcompEff s i r (s', .ok none)
+      PubcompEff s i (s', .err (.unsolicited i))
+  /-- bit cleared, counter down, a publish parked on the id released -/
+  | done (res : State × Outcome) (h : relContains s i = true)
+      (he : ReleaseEff s i { s.core with rel := s.outgoingRel.set i false, inf := s.inflight - 1 } res) :
+      PubcompEff s i res
 
-/-- PUBCOMP when no parked publish waits for its id (otherwise: #4 / #13) -/
-theorem handlePubcomp_eff {s : State} (hs : SInv s) (i r : Nat)
-    (hn : ∀ c, s.collision = some c → c.pkid ≠ i) : PubcompEff s i r (handlePubcomp s i r) := by
+theorem handlePubcomp_eff {s : State} (hs : SInv s) (i : Nat) : PubcompEff s i (handlePubcomp s i) := by
   unfold handlePubcomp
-  split
-  · rename_i hv
-    unfold handlePubcompV4
-    by_cases hc : relContains s i = true
-    · rw [if_pos hc]
-      have hpos := relCount_pos_of_bit _ _ ((relContains_eq s i).mp hc)
-      have hcnt := hs.counter
-      rw [if_neg (by omega)]
-      simp only
-      cases hcol : s.collision with
-      | none => exact .done _ hc true (by simp) (by simp [State.core, hcol])
-      | some c =>
-        simp only
-        rw [if_neg (hn c hcol)]
-        exact .done _ hc true (by simp) (by simp [State.core, hcol])
-    · rw [if_neg hc]
-      exact .unsol _ (by simpa using hc) rfl
-  · rename_i hv
-    unfold handlePubcompV5
-    have ht : pubcompTakeCollision s i = s := by
-      unfold pubcompTakeCollision
-      cases hcol : s.collision with
-      | none => rfl
-      | some c => simp only; rw [if_neg (hn c hcol)]
-    have hk : pubcompTaken s i = none := by
-      unfold pubcompTaken
-      cases hcol : s.collision with
-      | none => rfl
-      | some c => simp only; rw [if_neg (hn c hcol)]
-    simp only [ht, hk]
-    by_cases hc : relContains s i = true
-    · rw [if_pos hc]
-      by_cases hr : (r != 0) = true
-      · rw [if_pos hr]
-        exact .done _ hc false (fun _ => ⟨hv, by simpa using hr⟩) (by simp [State.core])
-      · rw [if_neg hr]
-        have hpos := relCount_pos_of_bit _ _ ((relContains_eq s i).mp hc)
-        have hcnt := hs.counter
-        rw [if_neg (by (try simp only); omega)]
-        exact .done _ hc true (by simp) (by simp [State.core])
-    · rw [if_neg hc]
-      exact .unsol _ (by simpa using hc) rfl
+  by_cases hc : relContains s i = true
+  · rw [if_pos hc]
+    have hpos := relCount_pos_of_bit _ _ ((relContains_eq s i).mp hc)
+    have hcnt := hs.counter
+    rw [if_neg (by omega)]
+    exact .done _ hc (release_eff s { s with outgoingRel := s.outgoingRel.set i false, inflight := s.inflight - 1 } i rfl)
+  · rw [if_neg hc]
+    exact .unsol _ (by simpa using hc) rfl
+
+theorem ReleaseEff.transfer {s s0 : State} {i : Nat} {c0 : Core} {res : State × Outcome}
+    (h : ReleaseEff s0 i c0 res) (hcol : s0.collision = s.collision) :
+    ReleaseEff s i c0 (drainEvents res.1, res.2) := by
+  cases h with
+  | plain s' hn hc => exact .plain _ (by rw [← hcol]; exact hn) (by rw [core_drain, hc])
+  | released s' c hc' hci hc => exact .released _ c (by rw [← hcol]; exact hc') hci (by rw [core_drain, hc])
+
+theorem PubackEff.transfer {s s0 : State} {i : Nat} {res : State × Outcome} (h : PubackEff s0 i res)
+    (hc : s0.core = s.core) : PubackEff s i (drainEvents res.1, res.2) := by
+  obtain ⟨e1, e2, e3, e4, e5, e6⟩ := core_eqs hc
+  cases h with
+  | unsol s' h hc' => exact .unsol _ (by rw [← e1]; exact h) (by rw [core_drain, hc', hc])
+  | acked x res h he =>
+    refine .acked x _ (by rw [← e1]; exact h) ?_
+    have := he.transfer e4
+    rw [hc, e1, e3] at this
+    exact this
+
+theorem PubrecEff.transfer {s s0 : State} {i r : Nat} {res : State × Outcome} (h : PubrecEff s0 i r res)
+    (hc : s0.core = s.core) (hv : s0.ver = s.ver) : PubrecEff s i r (drainEvents res.1, res.2) := by
+  obtain ⟨e1, e2, e3, e4, e5, e6⟩ := core_eqs hc
+  cases h with
+  | unsol s' h hc' => exact .unsol _ (by rw [← e1]; exact h) (by rw [core_drain, hc', hc])
+  | failed x res h hv' he =>
+    refine .failed x _ (by rw [← e1]; exact h) (by rw [← hv]; exact hv') ?_
+    have := he.transfer e4
+    rw [hc, e1, e3] at this
+    exact this
+  | moved s' x h hv' hi hc' =>
+    exact .moved _ x (by rw [← e1]; exact h) (by rw [← hv]; exact hv') (by rw [← e2]; exact hi)
+      (by rw [core_drain, hc', hc, e1, e2])
+
+theorem PubcompEff.transfer {s s0 : State} {i : Nat} {res : State × Outcome} (h : PubcompEff s0 i res)
+    (hc : s0.core = s.core) : PubcompEff s i (drainEvents res.1, res.2) := by
+  obtain ⟨e1, e2, e3, e4, e5, e6⟩ := core_eqs hc
+  have hrc : ∀ j, relContains s0 j = relContains s j := by intro j; unfold relContains; rw [e2]
+  cases h with
+  | unsol s' h hc' => exact .unsol _ (by rw [← hrc]; exact h) (by rw [core_drain, hc', hc])
+  | done res h he =>
+    refine .done _ (by rw [← hrc]; exact h) ?_
+    have := he.transfer e4
+    rw [hc, e2, e3] at this
+    exact this
 
 /-- incoming packets other than PUBACK / PUBREC / PUBCOMP touch neither table, counter nor
     collision slot and never return a PUBLISH or PUBREL -/
@@ -182,117 +192,72 @@ theorem otherIncoming_eff (s : State) (p : Incoming)
   have hlk := (incoming_frame s p).2.2.2
   have key : ((handleIncoming s p).1.outgoingPub = s.outgoingPub ∧ (handleIncoming s p).1.outgoingRel = s.outgoingRel ∧
       (handleIncoming s p).1.inflight = s.inflight ∧ (handleIncoming s p).1.collision = s.collision ∧
-      (handleIncoming s p).1.lastPuback = s.lastPuback) ∧
+      (handleIncoming s p).1.outgoingOrder = s.outgoingOrder ∧ (handleIncoming s p).1.outgoingCount = s.outgoingCount) ∧
       (∀ q, (handleIncoming s p).2 ≠ .ok (some (.publish q))) ∧ (∀ j, (handleIncoming s p).2 ≠ .ok (some (.pubrel j))) := by
     unfold handleIncoming
     have hc0 : (s.pushEv (.incoming p)).outgoingPub = s.outgoingPub ∧ (s.pushEv (.incoming p)).outgoingRel = s.outgoingRel ∧
         (s.pushEv (.incoming p)).inflight = s.inflight ∧ (s.pushEv (.incoming p)).collision = s.collision ∧
-        (s.pushEv (.incoming p)).lastPuback = s.lastPuback := ⟨rfl, rfl, rfl, rfl, rfl⟩
+        (s.pushEv (.incoming p)).outgoingOrder = s.outgoingOrder ∧ (s.pushEv (.incoming p)).outgoingCount = s.outgoingCount :=
+      ⟨rfl, rfl, rfl, rfl, rfl, rfl⟩
     generalize s.pushEv (.incoming p) = s0 at hc0
-    obtain ⟨e1, e4, e2, e3, e5⟩ := hc0
+    obtain ⟨e1, e4, e2, e3, e5, e6⟩ := hc0
     simp only
     cases p with
     | puback i r => exact absurd rfl (h1 i r)
     | pubrec i r => exact absurd rfl (h2 i r)
     | pubcomp i r => exact absurd rfl (h3 i r)
     | publish q =>
-      obtain ⟨a1, a2, a3, a4, a5, a6, a7, a8, a9, a10⟩ := handlePublish_fields s0 q
+      obtain ⟨a1, a2, a3, a4, a5, a6, a7, a8, a9, a10, a11⟩ := handlePublish_fields s0 q
       obtain ⟨b1, b2⟩ := handlePublish_outcome s0 q
-      exact ⟨⟨a6.trans e1, a5.trans e4, a9.trans e2, a8.trans e3, a10.trans e5⟩, b2, b1⟩
+      exact ⟨⟨a6.trans e1, a5.trans e4, a9.trans e2, a8.trans e3, a10.trans e5, a11.trans e6⟩, b2, b1⟩
     | pubrel i r =>
-      obtain ⟨a1, a2, a3, a4, a5, a6, a7, a8⟩ := handlePubrel_fields s0 i r
-      exact ⟨⟨a2.trans e1, a1.trans e4, a3.trans e2, a4.trans e3, a6.trans e5⟩, a8, a7⟩
+      obtain ⟨a1, a2, a3, a4, a5, a6, a7, a8, a9, a10⟩ := handlePubrel_fields s0 i
+      exact ⟨⟨a2.trans e1, a1.trans e4, a3.trans e2, a4.trans e3, a7.trans e5, a8.trans e6⟩, a10, a9⟩
     | connack ok sp rm am =>
       simp only
       split
-      · exact ⟨⟨e1, e4, e2, e3, e5⟩, by simp, by simp⟩
-      · obtain ⟨a1, a2, a3, a4, a5, a6, a7, a8⟩ := handleConnack_fields s0 ok rm am
-        exact ⟨⟨a2.trans e1, a1.trans e4, a3.trans e2, a4.trans e3, a6.trans e5⟩, a8, a7⟩
-    | disconnect _ => simp only; split <;> exact ⟨⟨e1, e4, e2, e3, e5⟩, by simp, by simp⟩
-    | pingresp => exact ⟨⟨e1, e4, e2, e3, e5⟩, by simp, by simp⟩
-    | suback _ => exact ⟨⟨e1, e4, e2, e3, e5⟩, by simp, by simp⟩
-    | unsuback _ => exact ⟨⟨e1, e4, e2, e3, e5⟩, by simp, by simp⟩
-    | connect => exact ⟨⟨e1, e4, e2, e3, e5⟩, by simp, by simp⟩
-    | subscribe => exact ⟨⟨e1, e4, e2, e3, e5⟩, by simp, by simp⟩
-    | unsubscribe => exact ⟨⟨e1, e4, e2, e3, e5⟩, by simp, by simp⟩
-    | pingreq => exact ⟨⟨e1, e4, e2, e3, e5⟩, by simp, by simp⟩
-    | auth => exact ⟨⟨e1, e4, e2, e3, e5⟩, by simp, by simp⟩
-  obtain ⟨⟨k1, k2, k3, k4, k5⟩, k6, k7⟩ := key
-  refine ⟨?_, k6, k7⟩
-  simp only [State.core, k1, k2, k3, k4, k5, hlk]
+      · exact ⟨⟨e1, e4, e2, e3, e5, e6⟩, by simp, by simp⟩
+      · obtain ⟨a1, a2, a3, a4, a5, a6, a7, a8, a9, a10⟩ := handleConnack_fields s0 ok rm am
+        exact ⟨⟨a2.trans e1, a1.trans e4, a3.trans e2, a4.trans e3, a7.trans e5, a8.trans e6⟩, a10, a9⟩
+    | disconnect _ => simp only; split <;> exact ⟨⟨e1, e4, e2, e3, e5, e6⟩, by simp, by simp⟩
+    | pingresp => exact ⟨⟨e1, e4, e2, e3, e5, e6⟩, by simp, by simp⟩
+    | suback _ => exact ⟨⟨e1, e4, e2, e3, e5, e6⟩, by simp, by simp⟩
+    | unsuback _ => exact ⟨⟨e1, e4, e2, e3, e5, e6⟩, by simp, by simp⟩
+    | connect => exact ⟨⟨e1, e4, e2, e3, e5, e6⟩, by simp, by simp⟩
+    | subscribe => exact ⟨⟨e1, e4, e2, e3, e5, e6⟩, by simp, by simp⟩
+    | unsubscribe => exact ⟨⟨e1, e4, e2, e3, e5, e6⟩, by simp, by simp⟩
+    | pingreq => exact ⟨⟨e1, e4, e2, e3, e5, e6⟩, by simp, by simp⟩
+    | auth => exact ⟨⟨e1, e4, e2, e3, e5, e6⟩, by simp, by simp⟩
+  obtain ⟨⟨k1, k2, k3, k4, k5, k6⟩, k7, k8⟩ := key
+  refine ⟨?_, k7, k8⟩
+  simp only [State.core, k1, k2, k3, k4, k5, k6, hlk]
 
 theorem handleIncoming_puback (s : State) (i r : Nat) :
-    handleIncoming s (.puback i r) = handlePuback (s.pushEv (.incoming (.puback i r))) i r := rfl
+    handleIncoming s (.puback i r) = handlePuback (s.pushEv (.incoming (.puback i r))) i := rfl
 theorem handleIncoming_pubrec (s : State) (i r : Nat) :
     handleIncoming s (.pubrec i r) = handlePubrec (s.pushEv (.incoming (.pubrec i r))) i r := rfl
 theorem handleIncoming_pubcomp (s : State) (i r : Nat) :
-    handleIncoming s (.pubcomp i r) = handlePubcomp (s.pushEv (.incoming (.pubcomp i r))) i r := rfl
+    handleIncoming s (.pubcomp i r) = handlePubcomp (s.pushEv (.incoming (.pubcomp i r))) i := rfl
 
-
-/-- PUBCOMP in general (including the case that a parked publish waits for its id): the publish
-    table is untouched, the bit decides, the collision slot is kept or emptied -/
-inductive PubcompGen (s : State) (i r : Nat) : State × Outcome → Prop
-  | unsol (s' : State) (o : Outcome) (h : relContains s i = false)
-      (hp : s'.outgoingPub = s.outgoingPub) (hr : s'.outgoingRel = s.outgoingRel) (hi : s'.inflight = s.inflight)
-      (hc : s'.collision = s.collision ∨ (s.ver = Version.v5 ∧ s'.collision = none))
-      (hl : s'.lastPuback = s.lastPuback) : PubcompGen s i r (s', o)
-  | done (s' : State) (o : Outcome) (h : relContains s i = true) (dec : Bool)
-      (hdec : dec = false → s.ver = Version.v5 ∧ r ≠ 0)
-      (hp : s'.outgoingPub = s.outgoingPub) (hr : s'.outgoingRel = s.outgoingRel.set i false)
-      (hi : s'.inflight = if dec then s.inflight - 1 else s.inflight)
-      (hc : (s'.collision = s.collision ∧ ∀ c, s.collision = some c → c.pkid ≠ i) ∨ s'.collision = none)
-      (hl : s'.lastPuback = s.lastPuback) : PubcompGen s i r (s', o)
-
-theorem handlePubcomp_gen {s : State} (hs : SInv s) (i r : Nat) : PubcompGen s i r (handlePubcomp s i r) := by
-  unfold handlePubcomp
-  split
-  · rename_i hv
-    unfold handlePubcompV4
-    by_cases hc : relContains s i = true
-    · rw [if_pos hc]
-      have hpos := relCount_pos_of_bit _ _ ((relContains_eq s i).mp hc)
-      have hcnt := hs.counter
-      rw [if_neg (by omega)]
-      simp only
-      cases hcol : s.collision with
-      | none => exact .done _ _ hc true (by simp) rfl rfl rfl (Or.inl ⟨hcol.symm, by intro c' hc'; rw [hcol] at hc'; cases hc'⟩) rfl
-      | some c =>
-        simp only
-        by_cases hci : c.pkid = i
-        · rw [if_pos hci]; exact .done _ _ hc true (by simp) rfl rfl rfl (Or.inr rfl) rfl
-        · rw [if_neg hci]
-          exact .done _ _ hc true (by simp) rfl rfl rfl (Or.inl ⟨hcol.symm, by intro c' hc'; rw [hcol] at hc'; cases hc'; exact hci⟩) rfl
-    · rw [if_neg hc]
-      exact .unsol _ _ (by simpa using hc) rfl rfl rfl (Or.inl rfl) rfl
-  · rename_i hv
-    unfold handlePubcompV5
-    obtain ⟨a1, a2, a3, a4, a5, a6, a7, a8, a9, a10⟩ := pubcompTakeCollision_fields s i
-    have hcol : ((pubcompTakeCollision s i).collision = s.collision ∧ ∀ c, s.collision = some c → c.pkid ≠ i) ∨
-        (pubcompTakeCollision s i).collision = none := by
-      unfold pubcompTakeCollision
-      split
-      · rename_i c hc
-        split
-        · exact Or.inr rfl
-        · rename_i hci; exact Or.inl ⟨rfl, by intro c' hc'; rw [hc] at hc'; cases hc'; exact hci⟩
-      · rename_i hc; exact Or.inl ⟨rfl, by intro c' hc'; rw [hc] at hc'; cases hc'⟩
-    have hrc : relContains (pubcompTakeCollision s i) i = relContains s i := pubcompTakeCollision_rel s i i
-    generalize pubcompTakeCollision s i = s1 at *
-    simp only
-    by_cases hc : relContains s i = true
-    · rw [if_pos (by rw [hrc]; exact hc)]
-      by_cases hr : (r != 0) = true
-      · rw [if_pos hr]
-        exact .done _ _ hc false (fun _ => ⟨hv, by simpa using hr⟩) a7 (by simp [a6]) a9 hcol a10
-      · rw [if_neg hr]
-        have hpos := relCount_pos_of_bit _ _ ((relContains_eq s i).mp hc)
-        have hcnt := hs.counter
-        rw [if_neg (by (try simp only); omega)]
-        exact .done _ _ hc true (by simp) a7 (by simp [a6]) (by simp [a9]) hcol a10
-    · rw [if_neg (by rw [hrc]; exact hc)]
-      refine .unsol _ _ (by simpa using hc) a7 a6 a9 ?_ a10
-      rcases hcol with h | h
-      · exact Or.inl h.1
-      · exact Or.inr ⟨hv, h⟩
+theorem user_nonpublish_core (s : State) (u : UserReq) (hu : ∀ q t, u ≠ .publish q t) :
+    (handleOutgoing s u.toRequest).1.core = { s.core with lastPkid := (handleOutgoing s u.toRequest).1.lastPkid } ∧
+    (∀ q, (handleOutgoing s u.toRequest).2 ≠ .ok (some (.publish q))) ∧ (handleOutgoing s u.toRequest).2 ≠ .ok none := by
+  cases u with
+  | publish q t => exact absurd rfl (hu q t)
+  | subscribe n =>
+    simp only [UserReq.toRequest, handleOutgoing, outgoingSubscribe]
+    split
+    · exact ⟨rfl, by simp, by simp⟩
+    · split
+      · exact ⟨rfl, by simp, by simp⟩
+      · exact ⟨by rw [core_pushOut, nextPkidSt_core]; rfl, by simp, by simp⟩
+  | unsubscribe =>
+    simp only [UserReq.toRequest, handleOutgoing, outgoingUnsubscribe]
+    split
+    · exact ⟨rfl, by simp, by simp⟩
+    · exact ⟨by rw [core_pushOut, nextPkidSt_core]; rfl, by simp, by simp⟩
+  | disconnect => exact ⟨rfl, by simp [UserReq.toRequest, handleOutgoing, outgoingDisconnect], by simp [UserReq.toRequest, handleOutgoing, outgoingDisconnect]⟩
+  | puback i => exact ⟨rfl, by simp [UserReq.toRequest, handleOutgoing, outgoingPuback], by simp [UserReq.toRequest, handleOutgoing, outgoingPuback]⟩
+  | pubrec i => exact ⟨rfl, by simp [UserReq.toRequest, handleOutgoing, outgoingPubrec], by simp [UserReq.toRequest, handleOutgoing, outgoingPubrec]⟩
 
 end Client
